@@ -5,8 +5,9 @@ PROPS = {
     "C15": {
         "technique": "Lean 4 theorems for every environment list + raw-envp differential in a re-exec'd child",
         "suites": [{"name": "env", "quick": 600, "thorough": 8000}],
+        "lean_modules": ["SfwModel.Props.C15", "SfwModel.Props.C15Facts"],
         "required_theorems": ["C15_overrides_effective", "C15_overrides_last", "C15_passthrough",
-                              "C15_passthrough_order", "C15_effective_passthrough"],
+                              "C15_passthrough_order", "C15_effective_passthrough", "C15_every_loader_uses_the_hardened_env"],
         "trusted_base": [
             "os/exec keeps the LAST entry of a duplicated key (modelled as `effective`)",
             "Go's strings.ToUpper maps into ASCII only a-z, U+017F and U+0131 (driver instance `goUpper`; the theorems hold for every `upper`)",
@@ -61,7 +62,8 @@ PROPS["C20"] = {
 }
 PROPS["C06"] = {
     "technique": 'Lean 4 refinement proof (KV with indexes refines ID -> Signature, every history) + op-sequence differential on a real Pebble',
-    "suites": [{"name": "store", "quick": 200, "thorough": 1500, "timeout": 3000}],
+    "suites": [{"name": "store", "quick": 200, "thorough": 1500, "timeout": 3000}, {"name": "migrate", "timeout": 3000}],
+    "also": ["C18"],   # lookups after a JSON migration are part of "every lookup reflects the stored set"; the migrate suite tags C18
     "required_theorems": ["C06_inv_init", "C06_inv_step", "C06_reachable_inv", "C06_abs_nodup", "C06_abs_step", "C06_get_eq",
                           "C06_byTopology_eq", "C06_candidates_eq", "C06_scanFull_eq", "C06_scanExact_sound",
                           "C06_scanExact_complete", "C06_count_eq", "C06_list_eq", "C06_export_eq", "C06_stats_eq",
